@@ -1,11 +1,20 @@
 """C06 — completed is final; every durable status change is a legal transition."""
 from __future__ import annotations
 
+from harness import engine_pairs
+
 RULE = ("table: all 12x12 status pairs through can_transition and the model (exhaustive); "
         "engine: every status-audit row (SQL trigger) of every explored engine trace is checked against the source table; "
-        "a case is distinct by its canonical (workflow spec, op list) and non-trivial when it has a non-FIFO choice or an injected op")
-ASSUMPTIONS = ["AFTER UPDATE OF status triggers observe exactly the durable changes (rows of a rolled-back transaction vanish)"]
-TRUSTED_BASE = ["engine part: the hand-written Engine model is tied to the handlers by the Mode-A trace differential only"]
+        "a case is distinct by its canonical (workflow spec, op list) and non-trivial when it has a non-FIFO choice or an injected op; "
+        "interleaving engine (Mode B, harness/engine_pairs.py): " + engine_pairs.RULE + "; for C06 the selection is join n=2 (DISCRIMINATOR, N_OF_M 2; "
+        "thorough: also N_OF_M 1), signal x 2, cancel x 2 and cancelrun x 3 (CancelStage vs the RunTask result commit for success / "
+        "running-with-context / terminal) at EVERY legal injection point in both directions; every status change of a stage / task / workflow row "
+        "committed during the pair and the following drain is checked against can_transition")
+ASSUMPTIONS = ["AFTER UPDATE OF status triggers observe exactly the durable changes (rows of a rolled-back transaction vanish)"] + engine_pairs.ASSUMPTIONS
+TRUSTED_BASE = ["engine part: the hand-written Engine model is tied to the handlers by the Mode-A trace differential only",
+                "interleaving part: no model — the oracle is the real `stabilize.models.status.can_transition` applied to the rows of the Mode B audit "
+                "triggers (`_mb_audit`, AFTER UPDATE OF status on stage_executions / task_executions / pipeline_executions); the transition table "
+                "itself is the subject of the table suite and of the table theorems"]
 
 
 def table_suite(ctx) -> None:
@@ -34,12 +43,19 @@ def table_suite(ctx) -> None:
 
 
 def run(ctx) -> None:
-    table_suite(ctx)
+    pairs = engine_pairs.start(ctx, "C06")       # Mode B pairs run in worker processes while the trace suites run here
     try:
-        from harness import engine_suites
-    except ImportError:
-        return
-    engine_suites.run_for(ctx, "C06")
+        table_suite(ctx)
+        try:
+            from harness import engine_suites
+        except ImportError:
+            engine_suites = None
+        if engine_suites is not None:
+            engine_suites.run_for(ctx, "C06")
+    except BaseException:
+        pairs["pool"].terminate()
+        raise
+    engine_pairs.finish(ctx, pairs)
 
 
 def search(ctx) -> None:
@@ -51,6 +67,9 @@ def search(ctx) -> None:
 
 
 def replay(ctx, body) -> int:
+    rp = body.get("replay") or body
+    if isinstance(rp, dict) and "enginepair" in rp:
+        return engine_pairs.replay(ctx, body, "C06")
     from harness import engine_suites
 
     return engine_suites.replay(ctx, body)
